@@ -55,6 +55,11 @@ structure State where
   exitTime : Nat := 0
   deriving Repr, DecidableEq
 
+def traceback : String := "Exception in thread"
+def ServerBehaviour.isReply : ServerBehaviour → Bool
+  | .reply _ _ _ => true
+  | _ => false
+
 def notice : String := "Please update to the latest ascmhl version using `pip3 install -U ascmhl`."
 def joinTimeoutMs : Nat := 1000
 
@@ -90,13 +95,14 @@ inductive Step (cmd : Cmd) (srv : ServerBehaviour) : State → State → Prop wh
   | chkStore (s : State) (n p d : Bool) : s.chkPc = .gotReply → srv = .reply n p d →
       Step cmd srv s { s with chkPc := .done, latest := some ⟨n, p, d⟩ }
   | chkGarbage (s : State) : s.chkPc = .requesting → srv = .garbage →
-      Step cmd srv s { s with chkPc := .dead, stderr := s.stderr ++ ["Exception in thread"] }
+      Step cmd srv s { s with chkPc := .dead, stderr := s.stderr ++ [traceback] }
   | chkRequestException (s : State) : s.chkPc = .requesting → srv = .requestException →
       Step cmd srv s { s with chkPc := .done }
   | chkOtherException (s : State) : s.chkPc = .requesting → srv = .otherException →
-      Step cmd srv s { s with chkPc := .dead, stderr := s.stderr ++ ["Exception in thread"] }
-  /-- time passes while the checker waits (srv = never stays in `requesting` forever) -/
-  | tick (s : State) (dt : Nat) : s.mainPc ≠ .joining → s.mainPc ≠ .exited →
+      Step cmd srv s { s with chkPc := .dead, stderr := s.stderr ++ [traceback] }
+  /-- time passes before and while the command runs (the checker may stay in `requesting` forever when srv = never).
+  The main thread's own steps after the join (reading one attribute, printing one line) take no modelled time. -/
+  | tick (s : State) (dt : Nat) : (s.mainPc = .start ∨ s.mainPc = .running) →
       Step cmd srv s { s with now := s.now + dt }
 
 /-- executions: any finite sequence of steps from the initial state -/
